@@ -186,6 +186,14 @@ def build(case):
     desc, order, extra = case[0], case[1], case[2]
     ad, n = _hier.prepare((desc, order))
     s = core.sdn()
+    # arbitrary nested user data on every kind of element (a list of dicts, like EDIF.properties)
+    n["u"] = [{"a": [1, 2]}, {"b": {"c": 3}}]
+    for l in n.libraries:
+        l["u"] = [{"lib": [l.name]}]
+        for d in l.definitions:
+            d["u"] = [{"def": {"n": [d.name]}}]
+            for el in list(d.ports) + list(d.cables):
+                el["u"] = [{"k": [el.name, {"deep": [0]}]}]
     if extra == "unnamed":
         for l in n.libraries:
             for d in l.definitions:
